@@ -18,6 +18,7 @@ type field struct {
 	// 'v' varintConv holding a plain value (NumParams, line offsets, ...)
 	// 'i' whole Int object holding the byte length of the file set
 	// 'g' byte count of a gob message
+	// 'c' the instruction bytes of a compiled function (opcodes are what the v1 converter dispatches on)
 	Kind byte
 }
 
@@ -157,8 +158,14 @@ func (w *walker) object(pos, end int) (int, error) {
 						return 0, err
 					}
 				case 2:
+					q := p
 					if p, err = w.object(p, bend); err != nil {
 						return 0, err
+					}
+					// the instruction bytes: payload of the Bytes object at q
+					if w.d[q] == 8 {
+						hdr := 2 + int(w.d[q+1])
+						w.add(q+hdr, p-q-hdr, 'c')
 					}
 				case 3:
 				case 5:
@@ -322,7 +329,7 @@ func walkObject(d []byte) (f []field, err error) {
 func structural(n int, fs []field) []bool {
 	s := make([]bool, n)
 	for _, f := range fs {
-		if f.Kind == 'v' {
+		if f.Kind == 'v' || f.Kind == 'c' {
 			continue
 		}
 		for i := f.Off; i < f.Off+f.Len && i < n; i++ {
